@@ -433,6 +433,11 @@ func (t *transpiler) charClassElement(node ast.CharClassElementNode) {
 	case *ast.MetaCharEscapeNode:
 		t.metaCharEscape(n)
 	case *ast.CharNode:
+		if n.Value == ']' {
+			// the parser accepts a bare `]` as the end of a range (`[+-]]`),
+			// Go would end the class there
+			t.Buffer.WriteRune('\\')
+		}
 		t.char(n)
 	case *ast.CaretEscapeNode:
 		t.caretEscape(n)
